@@ -120,9 +120,39 @@ func (u *Unit) call(s *State, c *ssa.CallCommon, instr *ssa.Call, k func(*State)
 		k(s)
 		return
 	}
+	// interface method call on a closed interface: dispatch over the implementing types
+	if c.IsInvoke() && u.p.libContract(name, len(args)) == nil {
+		if impls, ok := u.p.closedFor(c.Value.Type()); ok && len(impls) > 0 {
+			recv := args[0]
+			if site != nil {
+				u.safety(s, site, "nil", fmt.Sprintf("(not (= (itype %s) 0))", recv.S))
+			}
+			for _, T := range impls {
+				sel := u.p.prog.MethodSets.MethodSet(T).Lookup(c.Method.Pkg(), c.Method.Name())
+				if sel == nil {
+					continue
+				}
+				m := u.p.prog.MethodValue(sel)
+				if m == nil {
+					continue
+				}
+				s2 := s.clone()
+				s2.assume(fmt.Sprintf("(= (itype %s) %s)", recv.S, u.ss.tag(T)))
+				so := u.ss.sortOf(T)
+				_, unbox := u.boxFn(so)
+				rv := Term{S: fmt.Sprintf("(%s (ival %s))", unbox, recv.S), Sort: so, T: T}
+				a2 := append([]Term{rv}, args[1:]...)
+				u.callResolved(s2, nil, m, m.String(), a2, m.Signature, instr, site, pos, k)
+			}
+			return
+		}
+	}
+	u.callResolved(s, c, callee, name, args, sig, instr, site, pos, k)
+}
 
+func (u *Unit) callResolved(s *State, c *ssa.CallCommon, callee *ssa.Function, name string, args []Term, sig *types.Signature, instr *ssa.Call, site ssa.Instruction, pos token.Pos, k func(*State)) {
 	// variadic expansion for lib contracts keyed by arity
-	if callee != nil && sig.Variadic() && len(c.Args) > 0 {
+	if c != nil && callee != nil && sig.Variadic() && len(c.Args) > 0 {
 		last := c.Args[len(c.Args)-1]
 		if m, ok := s.arrs[last]; ok && m != nil {
 			if sl, ok := last.(*ssa.Slice); ok {
@@ -171,7 +201,7 @@ func (u *Unit) call(s *State, c *ssa.CallCommon, instr *ssa.Call, k func(*State)
 		return
 	}
 	// dynamic call of a known closure
-	if callee == nil && !c.IsInvoke() {
+	if c != nil && callee == nil && !c.IsInvoke() {
 		if cl, ok := s.closures[c.Value]; ok && u.canInline(cl.fn) && u.p.contractFor(cl.fn) == nil {
 			u.inline(s, cl.fn, cl, args, sig, instr, k)
 			return
@@ -179,13 +209,15 @@ func (u *Unit) call(s *State, c *ssa.CallCommon, instr *ssa.Call, k func(*State)
 	}
 	// unknown: havoc
 	u.frameClosed(s, name, site, pos)
-	if !u.callIsPure(c) {
-		if u.fc != nil && u.fc.Pure {
-			panic(abortUnit{"declared pure but calls " + name + ", which may write memory"})
+	if c == nil || !u.callIsPure(c) {
+		if u.restricted() {
+			panic(abortUnit{"write set: calls " + name + ", which may write any memory"})
 		}
 		u.havocHeaps(s, "call")
 		u.havocGhost(s)
-		u.havocClosureCells(s, c)
+		if c != nil {
+			u.havocClosureCells(s, c)
+		}
 		u.copyBackInterior(s)
 	}
 	if !strings.HasPrefix(name, "fmt.") && !strings.HasPrefix(name, "errors.") {
@@ -367,12 +399,35 @@ func (u *Unit) applyContract(s *State, fc *FuncContract, callee *ssa.Function, n
 		u.frameWrite(s, pt, flabel, ord, pos)
 	}
 	if !fc.Pure {
-		if u.fc != nil && u.fc.Pure {
-			panic(abortUnit{"declared pure but calls " + name + ", which is not pure"})
+		if mods := fc.modifies(); len(mods) > 0 {
+			// the callee writes only through the listed pointer parameters
+			for _, m := range mods {
+				a, ok := names[m]
+				if !ok {
+					panic(abortUnit{fmt.Sprintf("%s:%d: modifies names unknown parameter %s", fc.File, fc.Line, m)})
+				}
+				if u.restricted() && !u.writeAllowed(a) {
+					panic(abortUnit{"write set: calls " + name + ", which writes through " + a.S})
+				}
+				pt, ok := a.T.Underlying().(*types.Pointer)
+				if !ok {
+					panic(abortUnit{fmt.Sprintf("%s:%d: modifies parameter %s is not a pointer", fc.File, fc.Line, m)})
+				}
+				nv := u.freshT("mod."+m, pt.Elem())
+				saved := u.fc
+				u.fc = nil
+				u.store(s, AddrDeref{a, pt.Elem()}, nv)
+				u.fc = saved
+			}
+			u.copyBackInterior(s)
+		} else {
+			if u.restricted() {
+				panic(abortUnit{"write set: calls " + name + ", which may write any memory"})
+			}
+			u.havocHeaps(s, "call")
+			u.havocGhost(s)
+			u.copyBackInterior(s)
 		}
-		u.havocHeaps(s, "call")
-		u.havocGhost(s)
-		u.copyBackInterior(s)
 	}
 	// results
 	var res []Term
@@ -394,6 +449,12 @@ func (u *Unit) applyContract(s *State, fc *FuncContract, callee *ssa.Function, n
 			if so := u.ss.sortOf(t); so != r.Sort {
 				panic(abortUnit{fmt.Sprintf("%s:%d: returns %q has sort %s, want %s", fc.File, fc.Line, returns[i], r.Sort, so)})
 			}
+			res = append(res, r)
+			continue
+		}
+		if _, isPtr := t.Underlying().(*types.Pointer); isPtr && fc.Opts["fresh"] != "" {
+			r := u.newAddr(s, "new.ret."+short)
+			r.T = t
 			res = append(res, r)
 			continue
 		}
@@ -707,4 +768,39 @@ func (u *Unit) recursionVariant(s *State, fc *FuncContract, callee *ssa.Function
 		u.oblige(s, n, []string{"C19"}, "decreases", "false", pos)
 		s.pc = s.pc[:len(s.pc)-1] // do not assume false afterwards
 	}
+}
+
+// modifies returns the pointer parameters a contract says the function may write through.
+func (fc *FuncContract) modifies() []string {
+	var out []string
+	for _, c := range fc.Clauses {
+		if c.Kind == "modifies" {
+			for _, x := range strings.Split(c.Expr, ",") {
+				if x = strings.TrimSpace(x); x != "" {
+					out = append(out, x)
+				}
+			}
+		}
+	}
+	return out
+}
+
+// restricted: the unit's contract limits what it may write (pure, or modifies list).
+func (u *Unit) restricted() bool {
+	return u.fc != nil && (u.fc.Pure || len(u.fc.modifies()) > 0)
+}
+
+// writeAllowed: pointer p is freshly allocated in this unit or is one of the unit's modifies parameters.
+func (u *Unit) writeAllowed(p Term) bool {
+	if strings.HasPrefix(p.S, "new.") {
+		return true
+	}
+	if u.fc != nil {
+		for _, m := range u.fc.modifies() {
+			if t, ok := u.entryVals[m]; ok && t.S == p.S {
+				return true
+			}
+		}
+	}
+	return false
 }
